@@ -111,6 +111,28 @@ func c19Stmt(r *Rng, c int, ro bool, scoped bool) Stmt {
 		func() string { return "select * where key = " + uniq },
 		func() string { return "select key, 10 / (int(value) - int(value)) where " + scope },
 		func() string { return "select key, int(value) as n where " + scope + " & (n / (n - n)) > 1" },
+		// more ways to fail: an invalid regular expression, an aggregate whose
+		// argument fails on some row (through an alias), a statement cut short
+		func() string {
+			return "select key where " + scope + " & value ~= " + quote(pick(r, []string{"[", "(a", "a{2,1}", "*"}))
+		},
+		func() string { return "select key where value ~= '[' & " + scope },
+		func() string {
+			return fmt.Sprintf("select value as v, sum(100 / (int(v) - %d)) as s, count(1) where %s group by v", r.Intn(6), scope)
+		},
+		func() string {
+			return fmt.Sprintf("select int(value) as n, max(12 / (n - %d)) where %s group by n", r.Intn(4), scope)
+		},
+		func() string { return fmt.Sprintf("select sum(10 / (int(value) - %d)) where %s", r.Intn(6), scope) },
+		func() string {
+			// a statement cut short or otherwise damaged (a SELECT: whatever the damage leaves, it cannot write)
+			base := pick(r, []string{
+				"select key, upper(value) as u where " + scope + " & u != 'ZZ' order by u limit 2, 3",
+				"select value, count(1) as c where " + scope + " group by value order by c desc limit 3",
+				"select key, int(value) as n where " + scope + " & n > 2",
+			})
+			return corruptText(r, base)
+		},
 	}
 	writes := []func() string{
 		func() string { return "put (" + quote(k()) + ", " + quote("w"+uniq) + ")" },
@@ -124,6 +146,10 @@ func c19Stmt(r *Rng, c int, ro bool, scoped bool) Stmt {
 		},
 		func() string { return "delete where key in " + inList([]string{k(), k()}) },
 		func() string { return "put (" + quote(k()) + ", 4 / (2 - 2))" },
+		// write statements cut short: parse errors of the PUT/REMOVE/DELETE grammar
+		func() string {
+			return pick(r, []string{"put (" + quote(k()) + ", 'x'", "put (" + quote(k()), "put (" + quote(k()) + " 'x')", "remove", "remove " + quote(k()) + ",", "delete where", "delete where " + scope + " limit"})
+		},
 	}
 	var text string
 	switch {
@@ -183,7 +209,14 @@ func genC19(seed uint64, i int, tier string) *Scenario {
 			Stmt{Text: "select count(1), sum(int(value)), max(int(value)) where key ^= 'c'", Mode: genMode(r)},
 			Stmt{Text: "select value, count(1) as n, group_concat(key, ',') where key ^= 'c' group by value order by n desc, value limit 5", Mode: genMode(r)},
 			Stmt{Text: "select key, upper(value) as u where u ~= '^[V0-9]' & key ^= 'c'", Mode: genMode(r)},
-			Stmt{Text: "select key, int(value) / (int(value) - int(value)) where key ^= 'c'", Mode: genMode(r)})
+			Stmt{Text: "select key, int(value) / (int(value) - int(value)) where key ^= 'c'", Mode: genMode(r)},
+			Stmt{Text: "select key where key ^= 'c' & value ~= '['", Mode: genMode(r)},
+			Stmt{Text: "select key where key ^= 'c' & value ~= '^[v0-9]'", Mode: genMode(r)},
+			Stmt{Text: "select value as v, sum(100 / (int(v) - 5)) as s where key ^= 'c' group by v", Mode: genMode(r)},
+			Stmt{Text: "select value as v, sum(int(v)) as s where key ^= 'c' group by v", Mode: genMode(r)},
+			Stmt{Text: "put ('x', 'y'", Mode: genMode(r)},
+			Stmt{Text: "put ('x'", Mode: genMode(r)},
+			Stmt{Text: "select * where", Mode: genMode(r)})
 	}
 	total := 0
 	for c := 0; c < n; c++ {
